@@ -938,3 +938,60 @@ Lemma unfiltered_accepted_refuted_last :
   last (snd (run [Schema] [0] ([ORegName 0 (NGen KMap TBody); ODecFilter 0 true (call_method sGET)]
                                ++ [ODecApply 0 f_map_body; ORegFn 0 f_bpp]))) Done = RejectedFilter.
 Proof. vm_compute. reflexivity. Qed.
+
+(* ====================================================================================== *)
+(* Part E: generation interleaved with registration                                       *)
+(* ====================================================================================== *)
+Lemma fst_run_app fixed ops1 : forall st ops2,
+  fst (run_gen fixed st (ops1 ++ ops2)) = fst (run_gen fixed (fst (run_gen fixed st ops1)) ops2).
+Proof.
+  induction ops1 as [|o ops1 IH]; intros st ops2; [reflexivity|].
+  rewrite <- app_comm_cons, !fst_run_cons. apply IH.
+Qed.
+
+Lemma gen_trace_app g s t pre : forall st rest,
+  gen_trace st g s t (pre ++ rest)
+  = gen_trace st g s t pre ++ gen_trace (fst (run_gen true st (ops_of pre))) g s t rest.
+Proof.
+  induction pre as [|[o|o] pre IH]; intros st rest; cbn [app gen_trace ops_of].
+  - reflexivity.
+  - rewrite fst_run_cons. apply IH.
+  - rewrite IH. reflexivity.
+Qed.
+
+Lemma gen_trace_length g s t evs : forall st, length (gen_trace st g s t evs) = count_generates evs.
+Proof. induction evs as [|[o|o] evs IH]; intros st; cbn; auto. Qed.
+
+(* C19_generation_uses_current_registrations: what a generation applies is a function of the registration
+   operations before it; the generations before it (how many, for which operations) do not matter *)
+Lemma generation_uses_current_registrations st g s t pre o post :
+  nth (count_generates pre) (gen_trace st g s t (pre ++ EGenerate o :: post)) []
+  = map (fun c => generation_hooks (fst (run_gen true st (ops_of pre))) g s t c o) all_targets.
+Proof.
+  rewrite gen_trace_app, app_nth2; rewrite gen_trace_length; [|lia].
+  rewrite Nat.sub_diag. reflexivity.
+Qed.
+
+(* spelled out from the initial state: a hook is applied by a generation iff it is registered NOW under that name
+   on a dispatcher in scope and the filters of its own registration expression select the operation *)
+Lemma generation_now scopes closures g s t pre o post c k f :
+  In c all_targets ->
+  (exists l, nth_error (nth (count_generates pre)
+                            (gen_trace (init scopes closures) g s t (pre ++ EGenerate o :: post)) []) 
+                       (match c with TPath => 0 | TQuery => 1 | THeaders => 2 | TCookies => 3 | TBody => 4 | TCase => 5 end) = Some l
+             /\ (In (k, f) l <->
+                 exists di, in_scope g s t di /\ In f (all_by_name (fst (run scopes closures (ops_of pre))) di (NGen k c)) /\
+                            match own_chain (spec_run closures (ops_of pre)) f with Some fs => fset_match fs o = true | None => True end)).
+Proof.
+  intros _. rewrite generation_uses_current_registrations.
+  exists (generation_hooks (fst (run scopes closures (ops_of pre))) g s t c o). split.
+  - destruct c; reflexivity.
+  - apply generation_hooks_full.
+Qed.
+
+Example gen_trace_example :
+  gen_trace (init [Global; Schema] [0; 1]) 0 1 None
+    [EGenerate op_get; EOp (OFilter 0 true (call_method sGET)); EOp (ORegFn 0 f_map_query);
+     EGenerate op_get; EGenerate op_post; EOp (OUnregister 0 21%N); EGenerate op_get]
+  = [[[]; []; []; []; []; []]; [[]; [(KMap, 21%N)]; []; []; []; []]; [[]; []; []; []; []; []]; [[]; []; []; []; []; []]].
+Proof. vm_compute. reflexivity. Qed.
